@@ -552,8 +552,6 @@ C11_EXCEPTIONS = {
     ("expressions::lexer::util::cycle_reference", "index:(*body)[..]"): _TOK,
     ("expressions::lexer::util::cycle_reference", "index:(*body)[..]#2"): _TOK,
     ("expressions::lexer::util::cycle_reference", "index:(*body)[..]#3"): _TOK,
-    ("expressions::lexer::util::cycle_token_text", "index:(*text)[..]"): _CTT,
-    ("expressions::lexer::util::cycle_token_text", "index:(*text)[..]#2"): _CTT,
     ("formatter::format::format_number", "index:int_part[..]"): _DIGITS,
     ("formatter::format::format_number", "index:int_part[..]#2"): _DIGITS,
     ("formatter::format::format_number", "index:exponent_part[..]"): _DIGITS,
